@@ -877,6 +877,16 @@ impl TypeChecker {
                 self.type_info.function_calls.insert(span, function);
                 return Ok(diverges);
             }
+
+            // Not a prefix: continue with the arithmetic case, the left
+            // operand has been checked already.
+            return if self.type_info.is_numeric_type(&var) {
+                diverges |= self.expr(scope, &ctx_left, right)?;
+                self.unify(&ctx.expected_type, &var, span, None)?;
+                Ok(diverges)
+            } else {
+                Err(self.error_expected_numeric_value(left, &var))
+            };
         };
 
         if let Add = op {
@@ -930,6 +940,17 @@ impl TypeChecker {
                     return Ok(diverges);
                 }
             }
+
+            // Not a string or a list: the left operand has been checked
+            // already, continue with the arithmetic case without checking
+            // it a second time (that made `a + b + c + ..` exponential).
+            return if self.type_info.is_numeric_type(&var) {
+                diverges |= self.expr(scope, &ctx_new, right)?;
+                self.unify(&ctx.expected_type, &var, span, None)?;
+                Ok(diverges)
+            } else {
+                Err(self.error_expected_numeric_value(left, &var))
+            };
         }
 
         match op {
